@@ -7,12 +7,14 @@ import (
 	"encoding/base64"
 	"encoding/json"
 	"fmt"
+	"math"
 	"reflect"
 	"sort"
 	"strings"
 	"time"
 
 	"github.com/tink-crypto/tink-go/v2/jwt"
+	"github.com/tink-crypto/tink-go/v2/keyset"
 	"github.com/tink-crypto/tink-go/v2/verifsim/refimpl/jwtref"
 )
 
@@ -149,6 +151,7 @@ type tokenPlan struct {
 	deliver  []delivery
 	bvals    []int // validators that walk this token's boundaries
 	foreign  *wkey
+	fails    []failPlan // issuing attempts made right before this token is issued (tokens issued by tink only)
 	compact  string
 	model    jwtref.Token
 	by       *wkey
@@ -211,6 +214,12 @@ func (w *world) issue(tp *tokenPlan) {
 	var compact string
 	if tp.via == "tink" {
 		w.r.Probe("issued-by-tink")
+		fired := 0
+		for _, fp := range tp.fails {
+			if w.failedIssue(tp, k, fp) {
+				fired++
+			}
+		}
 		var err error
 		compact, err = w.tinkIssue(tp, k, claims)
 		if err != nil {
@@ -218,6 +227,9 @@ func (w *world) issue(tp *tokenPlan) {
 			return
 		}
 		w.checkIssued(tp, compact, ms, claims)
+		if fired > 0 {
+			r.Probe("failed-issue-then-tink-issue-judged")
+		}
 	} else {
 		w.r.Probe("issued-by-harness-encoder")
 		spaced := false
@@ -563,7 +575,22 @@ func (w *world) tinkIssue(tp *tokenPlan, k *wkey, claims map[string]any) (string
 	if err != nil {
 		return "", fmt.Errorf("NewRawJWT: %w", err)
 	}
+	call, where, err := w.issuerFor(k)
+	if err != nil {
+		return "", err
+	}
 	var out string
+	func() {
+		defer w.catch(where, &err)
+		out, err = call(raw)
+	}()
+	return out, err
+}
+
+// issuerFor returns the issuing call of the primitive a token of key k is made
+// with: the keyset's primitive for the primary key, a one-key primitive through
+// the real factory (built on first use) for every other key.
+func (w *world) issuerFor(k *wkey) (call func(*jwt.RawJWT) (string, error), where string, err error) {
 	if w.class == "mac" {
 		m := w.ksMAC
 		if !k.primary {
@@ -577,16 +604,12 @@ func (w *world) tinkIssue(tp *tokenPlan, k *wkey, claims map[string]any) (string
 					k.oneMAC, err = jwt.NewMAC(h)
 				}()
 				if err != nil {
-					return "", fmt.Errorf("NewMAC: %w", err)
+					return nil, "", fmt.Errorf("NewMAC: %w", err)
 				}
 			}
 			m = k.oneMAC
 		}
-		func() {
-			defer w.catch("ComputeMACAndEncode", &err)
-			out, err = m.ComputeMACAndEncode(raw)
-		}()
-		return out, err
+		return m.ComputeMACAndEncode, "ComputeMACAndEncode", nil
 	}
 	s := w.ksSigner
 	if !k.primary {
@@ -600,16 +623,195 @@ func (w *world) tinkIssue(tp *tokenPlan, k *wkey, claims map[string]any) (string
 				k.oneSign, err = jwt.NewSigner(h)
 			}()
 			if err != nil {
-				return "", fmt.Errorf("NewSigner: %w", err)
+				return nil, "", fmt.Errorf("NewSigner: %w", err)
 			}
 		}
 		s = k.oneSign
 	}
-	func() {
-		defer w.catch("SignAndEncode", &err)
-		out, err = s.SignAndEncode(raw)
-	}()
-	return out, err
+	return s.SignAndEncode, "SignAndEncode", nil
+}
+
+// ---------------------------------------------------------------------------
+// Issuing attempts that fail, made right before an ordinary issuing step. The
+// property says nothing about them (beyond: no panic); what it says about the
+// ordinary step that follows — the token round-trips, carries the key's header
+// and the given claims — holds whatever an earlier call left behind.
+
+type failKind struct {
+	name string
+	open bool // the property leaves the outcome open: a probe, never a fault
+}
+
+var failKinds = []failKind{
+	{name: "nil-rawjwt"},              // refused before any work
+	{name: "typ-invalid-utf8"},        // NewRawJWT takes any type header; the header does not marshal
+	{name: "claim-name-invalid-utf8"}, // NewRawJWT takes any top-level claim name; the payload does not marshal (after the header did)
+	{name: "claim-value-nan-or-inf"},  // NewRawJWT takes NaN / ±Inf at any depth; the payload does not marshal
+	{name: "rawjwt-refused"},          // NewRawJWT itself refuses: issuing ends at its first step
+	{name: "unencodable-custom-kid"},  // a primitive over the same material whose custom kid is not UTF-8: its every header fails to marshal
+	{name: "from-json-without-exp", open: true},
+}
+
+func failedIssueFaults() []string {
+	var out []string
+	for _, k := range failKinds {
+		if !k.open {
+			out = append(out, "FI-"+k.name)
+		}
+	}
+	return out
+}
+
+type failPlan struct {
+	kind int
+	who  int    // 0: the primitive the judged call is made with, 1: the keyset's primitive, 2+i: the primitive of key i
+	p    uint64 // variant
+}
+
+// failedIssue makes one attempt; it reports whether the attempt failed.
+func (w *world) failedIssue(tp *tokenPlan, k *wkey, fp failPlan) bool {
+	r := w.r
+	kind := failKinds[fp.kind]
+	by := k
+	switch {
+	case fp.who == 1:
+		for _, o := range w.keys {
+			if o.primary {
+				by = o
+			}
+		}
+	case fp.who >= 2:
+		by = w.keys[(fp.who-2)%len(w.keys)]
+	}
+	opts := rawOpts(tp.claims, tp.typ) // looks like the token about to be issued, up to the one defect
+	if opts.CustomClaims == nil {
+		opts.CustomClaims = map[string]any{}
+	}
+	build, fromJSON, nilRaw := true, false, false
+	switch kind.name {
+	case "nil-rawjwt":
+		build, nilRaw = false, true
+	case "typ-invalid-utf8":
+		s := []string{"JW\xffT", "\xff", "\xc0\x80", "typ-\xed\xa0\x80"}[fp.p%4]
+		opts.TypeHeader = &s
+	case "claim-name-invalid-utf8":
+		opts.CustomClaims[[]string{"bad-\xff-name", "\xff", "\xc0\x80", "caf\xe9", "\xed\xa0\x80"}[fp.p%5]] = float64(1)
+	case "claim-value-nan-or-inf":
+		opts.CustomClaims["vsim-number"] = []any{math.NaN(), math.Inf(1), math.Inf(-1), []any{float64(1), math.NaN()}, map[string]any{"y": []any{math.Inf(-1)}}}[fp.p%5]
+	case "rawjwt-refused":
+		bad := "iss-\xff"
+		switch fp.p % 12 {
+		case 0:
+			opts.CustomClaims["s"] = "a\xff"
+		case 1:
+			opts.ExpiresAt, opts.WithoutExpiration = nil, false
+		case 2:
+			e := time.Unix(tp.base+3600, 0)
+			opts.ExpiresAt, opts.WithoutExpiration = &e, true
+		case 3:
+			a := "svc-a"
+			opts.Audience, opts.Audiences = &a, []string{"svc-b"}
+		case 4:
+			opts.CustomClaims[[]string{"iss", "exp", "aud", "jti"}[(fp.p/12)%4]] = "x"
+		case 5:
+			e := time.Unix(jwtref.MaxTimestamp+1, 0)
+			opts.ExpiresAt, opts.WithoutExpiration = &e, false
+		case 6:
+			opts.Issuer = &bad
+		case 7:
+			opts.CustomClaims["o"] = map[string]any{"\xff": float64(1)}
+		case 8:
+			opts.CustomClaims["c"] = make(chan int)
+		case 9:
+			opts = nil
+		case 10:
+			opts.Audience, opts.Audiences = nil, []string{}
+		default:
+			n := time.Unix(-5, 0)
+			opts.NotBefore = &n
+		}
+	case "unencodable-custom-kid":
+		if k.mat.badKID == nil {
+			bk := &wkey{mat: k.mat, alg: k.alg, rule: jwtref.KIDCustom, kid: "kid-\xff", enabled: true}
+			k.mat.badKID = bk
+			err := bk.build()
+			var h *keyset.Handle
+			if err == nil {
+				h, err = handleOf(bk)
+			}
+			if err == nil {
+				func() {
+					if w.class == "mac" {
+						defer w.catch("NewMAC", &err)
+						bk.oneMAC, err = jwt.NewMAC(h)
+					} else {
+						defer w.catch("NewSigner", &err)
+						bk.oneSign, err = jwt.NewSigner(h)
+					}
+				}()
+			}
+			if err != nil {
+				bk.tk = nil // tink does not make such a key or primitive: nothing to attempt
+			}
+		}
+		by = k.mat.badKID
+		if by.tk == nil {
+			return false
+		}
+	case "from-json-without-exp":
+		build, fromJSON = false, true
+	}
+	var raw *jwt.RawJWT
+	var err error
+	switch {
+	case build:
+		func() {
+			defer w.catch("NewRawJWT", &err)
+			raw, err = jwt.NewRawJWT(opts)
+		}()
+	case fromJSON:
+		c := cloneClaims(tp.claims)
+		delete(c, "exp")
+		payload, _ := json.Marshal(c)
+		func() {
+			defer w.catch("NewRawJWTFromJSON", &err)
+			raw, err = jwt.NewRawJWTFromJSON(tp.typ, payload)
+		}()
+	}
+	out := ""
+	if err == nil && (raw != nil || nilRaw) {
+		var call func(*jwt.RawJWT) (string, error)
+		var where string
+		call, where, err = w.issuerFor(by)
+		if err == nil {
+			func() {
+				defer w.catch(where, &err)
+				out, err = call(raw)
+			}()
+		}
+	}
+	failed := err != nil
+	w.digest = (w.digest ^ uint64(fp.kind<<1|b2i(failed)) ^ 0x5bd1e995) * 1099511628211
+	if r.Tracing() {
+		r.Logf("t0+%v issuing attempt before token %d: %s (variant %d) by %s: err=%v out=%q", time.Duration(tp.issueAt), tp.idx, kind.name, fp.p, by, err, abbreviate(out))
+	}
+	switch {
+	case kind.open:
+		r.Probe("issue-attempt-of-unconstrained-outcome")
+	case failed:
+		r.Fault("FI-" + kind.name)
+		w.failedIss++
+	default:
+		r.Probe("issue-attempt-expected-to-fail-succeeded") // whatever it returned is not a token this world judges
+	}
+	if failed {
+		if by == k || (by.primary && k.primary) {
+			r.Probe("failed-issue-by-the-judged-primitive")
+		} else {
+			r.Probe("failed-issue-by-another-primitive")
+		}
+	}
+	return failed
 }
 
 // checkIssued: a token made by SignAndEncode / ComputeMACAndEncode carries
